@@ -361,3 +361,236 @@ Definition yabs (s : dstate) : bst :=
       (queue (dPA s)) (dPacked s) (dErrD s || dErrPA s) (dEp s).
 
 End DownConc.
+
+(* ---------- (e) upload, after the last DATA frame ----------
+   Lines from the peer's acker: 0 = "#SUCC:step" with step < size, 1 = the final one (step == size).
+   [cFP]: the poll interval of the peer's acker in ticks. *)
+
+Inductive pkph := PKWait (j : nat) | PKDone.            (* the peer's acker: j ticks to its next "#SUCC:step" *)
+Inductive pmph := PMWait | PMRead (t : nat) | PMDone.   (* the peer's main goroutine: in recvFileDataV2 / reading
+                                                           the MD5 line with a plain timer / has it *)
+Inductive uev := UTick | UPause | UResume | UFACall | USaved.
+
+Record ust := mkU {
+  uPausing : bool;
+  uFA : oph;             (* our reader in pipelineRecvFinalAck *)
+  uFAq : list nat;       (* server -> client wire, unread *)
+  uFin : bool;           (* our reader returned the final ack; sendFileDataV2 returned and the MD5 line went out *)
+  uPK : pkph;
+  uSaved : bool;         (* the peer's savedSteps == size *)
+  uPM : pmph;
+  uBad : bool;
+  uEp : epi }.
+
+Section UpFinal.
+Variable cf : cfg.
+Variable FP : nat.      (* poll interval of the final-ack loop, in ticks *)
+Variable P : nat.
+
+Definition u_setFA (u : ust) (p : oph) (q : list nat) : ust :=
+  mkU (uPausing u) p q (uFin u) (uPK u) (uSaved u) (uPM u) (uBad u) (uEp u).
+Definition u_bad (u : ust) : ust :=
+  mkU (uPausing u) (uFA u) (uFAq u) (uFin u) (uPK u) (uSaved u) (uPM u) true (uEp u).
+Definition u_flags (u : ust) (pa : bool) (e : epi) : ust :=
+  mkU pa (uFA u) (uFAq u) (uFin u) (uPK u) (uSaved u) (uPM u) (uBad u) e.
+
+(* our reader returns line l: a progress ack is just consumed; the final one ends sendFileDataV2, the MD5 line
+   is written at once (no gate in front of it) and reaches the peer's main goroutine *)
+Definition u_deliver (u : ust) (q : list nat) (l : nat) : ust :=
+  match l with
+  | O => mkU (uPausing u) OIdle q (uFin u) (uPK u) (uSaved u) (uPM u) (uBad u) (uEp u)
+  | _ => mkU (uPausing u) OIdle q true (uPK u) (uSaved u)
+             (match uPM u with PMRead _ => PMDone | p => p end) (uBad u) (uEp u)
+  end.
+
+Definition u_arrive (u : ust) (l : nat) : ust :=
+  match uFA u with
+  | ORead _ => u_deliver u [] l
+  | p => u_setFA u p (uFAq u ++ [l])
+  end.
+
+Definition u_facall (u : ust) : ust :=
+  if uPausing u then u_setFA u (OGate (cSL cf)) (uFAq u)
+  else match uFAq u with
+       | l :: q => u_deliver u q l
+       | [] => u_setFA u (ORead (cT cf)) []
+       end.
+
+(* the peer's acker writes "#SUCC:step": the final one if its disk has everything (then its pipeline is
+   done and its main goroutine starts the plain timed read of the MD5 line), a progress ack otherwise *)
+Definition u_poll (u : ust) : ust :=
+  if uSaved u
+  then u_arrive (mkU (uPausing u) (uFA u) (uFAq u) (uFin u) PKDone true
+                     (match uPM u with PMWait => PMRead (cT cf) | p => p end) (uBad u) (uEp u)) 1
+  else u_arrive (mkU (uPausing u) (uFA u) (uFAq u) (uFin u) (PKWait FP) false (uPM u) (uBad u) (uEp u)) 0.
+
+Definition u_quiescent (u : ust) : bool :=
+  negb (match uFA u with OIdle => negb (uFin u) | _ => false end).
+
+Definition u_tickPM (u : ust) : ust :=
+  match uPM u with
+  | PMRead (S (S t)) => mkU (uPausing u) (uFA u) (uFAq u) (uFin u) (uPK u) (uSaved u) (PMRead (S t)) (uBad u) (uEp u)
+  | PMRead _ => u_bad u                                   (* the peer gives up waiting for the MD5 line *)
+  | _ => u
+  end.
+Definition u_tickFA (u : ust) : ust :=
+  match uFA u with
+  | OIdle => u
+  | OGate (S (S j)) => u_setFA u (OGate (S j)) (uFAq u)
+  | OGate _ => u_facall u
+  | ORead (S (S t)) => u_setFA u (ORead (S t)) (uFAq u)
+  | ORead _ => u_bad u
+  end.
+Definition u_tickPK (u : ust) : ust :=
+  match uPK u with
+  | PKWait (S (S j)) => mkU (uPausing u) (uFA u) (uFAq u) (uFin u) (PKWait (S j)) (uSaved u) (uPM u) (uBad u) (uEp u)
+  | PKWait _ => u_poll u
+  | PKDone => u
+  end.
+
+(* A new pause may begin only MORE than one sleep after the previous resume (one sleep plus one tick): our
+   reader looks at the pause flag before every read, so after its wake-up it needs an instant to work
+   through the progress acks that piled up before it reaches the final one; a pause that begins in that
+   very instant sends it back to sleep with the final ack still unread. *)
+Definition u_ep_tick (e : epi) : epi :=
+  match e with
+  | EpNone => EpNone
+  | EpPausing e => EpPausing (S e)
+  | EpResumed e j => if (j <? cSL cf)%nat then EpResumed e (S j) else EpNone
+  end.
+
+Definition ustep (u : ust) (x : uev) : option ust :=
+  match x with
+  | UFACall => match uFA u with OIdle => if uFin u then None else Some (u_facall u) | _ => None end
+  | USaved =>                                             (* the disk catches up; ackImmediately wakes the acker *)
+    if uSaved u then None
+    else match uPK u with
+         | PKWait _ => Some (u_poll (mkU (uPausing u) (uFA u) (uFAq u) (uFin u) (uPK u) true (uPM u) (uBad u) (uEp u)))
+         | PKDone => None
+         end
+  | UPause =>
+    match uEp u with
+    | EpResumed _ _ => None
+    | e => Some (u_flags u true (ep_pause e))
+    end
+  | UResume =>
+    match uEp u with
+    | EpPausing e => if uPausing u then Some (u_flags u false (EpResumed e O)) else None
+    | _ => None
+    end
+  | UTick =>
+    if u_quiescent u && (match uEp u with EpPausing e => (e <? P)%nat | _ => true end) then
+      let u3 := u_tickPK (u_tickFA (u_tickPM u)) in
+      Some (u_flags u3 (uPausing u3) (u_ep_tick (uEp u)))
+    else None
+  end.
+
+Fixpoint urun (u : ust) (xs : list uev) : option ust :=
+  match xs with
+  | [] => Some u
+  | x :: xs' => match ustep u x with Some u' => urun u' xs' | None => None end
+  end.
+
+(* the acker enters its final loop and writes its first "#SUCC:step" at once *)
+Definition uinit : ust := u_poll (mkU false OIdle [] false (PKWait O) false PMWait false EpNone).
+
+End UpFinal.
+
+(* ---------- (f) download, after the last DATA frame ----------
+   Lines from our acker: WLKeep = "#SUCC:=", WLData 0 = "#SUCC:step" with step < size, WLData 1 = the final one. *)
+
+Inductive k2ph :=
+| K2Call                 (* about to call checkStopAndPause("SUCC") *)
+| K2Sleep (j : nat)      (* asleep in the gate *)
+| K2Passed               (* past the gate, "#SUCC:step" not yet written *)
+| K2Wait (j : nat)       (* select { ackImmediately / time.After(200 ms) } *)
+| K2Done.
+
+Inductive vev := VTick | VPause | VResume | VKCall | VKWrite | VSaved | VPFCall.
+
+Record vst := mkV {
+  vPausing : bool;
+  vK : k2ph;
+  vSaved : bool;         (* our savedSteps == size *)
+  vPF : rph;             (* the peer's reader in pipelineRecvFinalAck *)
+  vPFq : list wline;
+  vPfin : bool;          (* it returned the final ack *)
+  vBad : bool }.
+
+Section DownFinal.
+Variable cf : cfg.
+Variable FP : nat.
+
+Definition v_setPF (v : vst) (p : rph) (q : list wline) (fin : bool) : vst :=
+  mkV (vPausing v) (vK v) (vSaved v) p q fin (vBad v).
+Definition v_setK (v : vst) (k : k2ph) : vst :=
+  mkV (vPausing v) k (vSaved v) (vPF v) (vPFq v) (vPfin v) (vBad v).
+
+Definition is_final (k : nat) : bool := match k with O => false | _ => true end.
+
+Definition v_arrive (v : vst) (l : wline) : vst :=
+  match vPF v with
+  | RIdle => v_setPF v RIdle (vPFq v ++ [l]) (vPfin v)
+  | RRead _ =>
+    match l with
+    | WLKeep => v_setPF v (RRead (cT cf)) (vPFq v) (vPfin v)
+    | WLData k => v_setPF v RIdle (vPFq v) (vPfin v || is_final k)
+    end
+  end.
+
+Definition v_pfcall (v : vst) : vst :=
+  match first_data (vPFq v) with
+  | None => v_setPF v (RRead (cT cf)) [] (vPfin v)
+  | Some (k, q') => v_setPF v RIdle q' (vPfin v || is_final k)
+  end.
+
+Definition v_gate (v : vst) : vst :=
+  if vPausing v then v_arrive (v_setK v (K2Sleep (cGL cf))) WLKeep else v_setK v K2Passed.
+
+Definition v_quiescent (v : vst) : bool :=
+  match vK v with K2Call => false | K2Passed => false | _ => true end
+  && negb (match vPF v with RIdle => negb (vPfin v) | _ => false end).
+
+Definition v_tickPF (v : vst) : vst :=
+  match vPF v with
+  | RIdle => v
+  | RRead (S (S t)) => v_setPF v (RRead (S t)) (vPFq v) (vPfin v)
+  | RRead _ => mkV (vPausing v) (vK v) (vSaved v) (vPF v) (vPFq v) (vPfin v) true
+  end.
+Definition v_tickK (v : vst) : vst :=
+  match vK v with
+  | K2Sleep (S (S j)) => v_setK v (K2Sleep (S j))
+  | K2Sleep _ => v_gate v
+  | K2Wait (S (S j)) => v_setK v (K2Wait (S j))
+  | K2Wait _ => v_setK v K2Call
+  | _ => v
+  end.
+
+Definition vstep (v : vst) (x : vev) : option vst :=
+  match x with
+  | VKCall => match vK v with K2Call => Some (v_gate v) | _ => None end
+  | VKWrite =>
+    match vK v with
+    | K2Passed =>
+      if vSaved v then Some (v_arrive (v_setK v K2Done) (WLData 1))
+      else Some (v_arrive (v_setK v (K2Wait FP)) (WLData 0))
+    | _ => None
+    end
+  | VSaved =>
+    if vSaved v then None
+    else Some (mkV (vPausing v) (match vK v with K2Wait _ => K2Call | k => k end) true (vPF v) (vPFq v) (vPfin v) (vBad v))
+  | VPFCall => match vPF v with RIdle => if vPfin v then None else Some (v_pfcall v) | _ => None end
+  | VPause => Some (mkV true (vK v) (vSaved v) (vPF v) (vPFq v) (vPfin v) (vBad v))
+  | VResume => Some (mkV false (vK v) (vSaved v) (vPF v) (vPFq v) (vPfin v) (vBad v))
+  | VTick => if v_quiescent v then Some (v_tickK (v_tickPF v)) else None
+  end.
+
+Fixpoint vrun (v : vst) (xs : list vev) : option vst :=
+  match xs with
+  | [] => Some v
+  | x :: xs' => match vstep v x with Some v' => vrun v' xs' | None => None end
+  end.
+
+Definition vinit : vst := mkV false K2Call false RIdle [] false false.
+
+End DownFinal.
